@@ -142,4 +142,4 @@ def check(run):
     oa = f('on_accept')
     g0 = [r_ for r_ in q.returns(oa) if any('operation_aborted' in q.render(oa, a) and p for a, p in q.guards_at(oa, r_))]
     run.check(bool(g0), 'R5', 'aborted-accept-ignored', H + '::on_accept', oa.loc(), 'an aborted accept (stop) is not ignored', 'returns on operation_aborted')
-    run.floor('R4', 12)
+    run.floor('R4', 8)
